@@ -465,6 +465,9 @@ func (e *Engine) callMods(x ssa.CallInstruction, s *fnSummary, seen map[*ssa.Fun
 		}
 	}
 	if com.IsInvoke() {
+		if ic := e.ifaceContract(com.Value.Type(), com.Method.Name()); ic != nil {
+			e.contractGhostMods(ic, s.mods)
+		}
 		impls := e.implementations(com.Value.Type(), com.Method)
 		if len(impls) == 0 {
 			sig := com.Method.Type().(*types.Signature)
@@ -478,6 +481,9 @@ func (e *Engine) callMods(x ssa.CallInstruction, s *fnSummary, seen map[*ssa.Fun
 	switch v := com.Value.(type) {
 	case *ssa.Function:
 		addCallee(v)
+		if ct := e.contracts[v]; ct != nil {
+			e.contractGhostMods(ct, s.mods)
+		}
 	case *ssa.Builtin:
 		switch v.Name() {
 		case "append":
@@ -507,6 +513,13 @@ func (e *Engine) callMods(x ssa.CallInstruction, s *fnSummary, seen map[*ssa.Fun
 		addCallee(v.Fn.(*ssa.Function))
 	default:
 		// dynamic call through a function value: contract on the function type or top
+		if fc := e.funcTypeContract(com.Value.Type()); fc != nil && fc.HasMod {
+			e.contractGhostMods(fc, s.mods)
+			for _, m := range fc.Modifies {
+				s.mods.add(m)
+			}
+			return
+		}
 		if e.funcTypeFrame != nil {
 			if ms, ok := e.funcTypeFrame[types.TypeString(com.Value.Type(), nil)]; ok {
 				s.mods.union(ms)
@@ -816,4 +829,21 @@ func globalRoot(v ssa.Value, depth int) *ssa.Global {
 		return globalRoot(x.X, depth+1)
 	}
 	return nil
+}
+
+// contractGhostMods: ghost arrays a contract updates (ghostset) or may modify (modifies G|x).
+func (e *Engine) contractGhostMods(ct *Contract, ms *ModSet) {
+	for _, g := range ct.Ghost {
+		ms.add("G|" + g.Name)
+	}
+	for _, m := range ct.Modifies {
+		if strings.HasPrefix(m, "G|") {
+			ms.add(m)
+		}
+		if m == "*" {
+			for name := range e.ghosts {
+				ms.add("G|" + name)
+			}
+		}
+	}
 }
